@@ -9,7 +9,7 @@ LevelBound == TLCGet("level") <= Depth
 \* one JSON line per simulated behaviour (spec -> impl replay)
 EmitAtDepth ==
     (TLCGet("level") = Depth) =>
-        PrintT(<<"REPLAY", ToJson([cfg |-> [pathReq |-> opt.pathReq, enc |-> opt.enc, retention |-> Retention, window |-> Window, psk |-> pskStore, parties |-> Parties, creator |-> Creator],
+        PrintT(<<"REPLAY", ToJson([cfg |-> [pathReq |-> opt.pathReq, enc |-> opt.enc, jit |-> opt.jit, retention |-> Retention, window |-> Window, psk |-> pskStore, parties |-> Parties, creator |-> Creator],
                                    steps |-> [i \in 1..Len(hist) |-> hist[i] @@ [aux |-> haux[i]]]])>>)
 
 (***************************************************************************)
@@ -64,6 +64,7 @@ ValidByValue(g) ==
     \cup (IF "psk" \in Features THEN {[kind |-> "psk", ref |-> 0, by |-> g.leaf, id |-> id] : id \in PskIds}
                                         \cup {[kind |-> "rpsk", ref |-> 0, by |-> g.leaf, epoch |-> e] : e \in 0..g.epoch} ELSE {})
     \cup (IF "gce" \in Features THEN {[kind |-> "gce", ref |-> 0, by |-> g.leaf, ver |-> 100 + Len(commits)]} ELSE {})
+    \cup (IF "custom" \in Features THEN {[kind |-> "custom", ref |-> 0, by |-> g.leaf, ver |-> 100 + Len(commits)]} ELSE {})
 
 ValidAdds(g) == {it \in ValidByValue(g) : it.kind = "add"}
 ValidRems(g) == {it \in ValidByValue(g) : it.kind = "rem"}
@@ -117,6 +118,7 @@ SimPropose ==
     \/ \E p \in Mem : \E id \in PskIds : ProposePsk(p, id)
     \/ \E p \in Mem : \E e \in {RandomElement(0..grp[p].epoch)} : ProposeResumptionPsk(p, e)
     \/ \E p \in Mem : ProposeGce(p)
+    \/ \E p \in Mem : ProposeCustom(p)
     \/ \E p \in Mem : RandomElement(1..(4 + Z)) = 1 /\ ProposeReinit(p)
 
 SimCommit ==
@@ -177,10 +179,25 @@ Bootstrap ==
     THEN \E p \in Parties : GenKeyPackage(p)
     ELSE \E p \in {RandomElement({q \in Mem : Z = 0})} : Commit(p, BootAdds(grp[p]), FALSE)
 
-SimNext ==
+\* the observer is (re)started now and then and is fed the public traffic with priority (so that it keeps up)
+SimObs ==
+    \/ (obs.st = "off" \/ RandomElement(1..(12 + Z)) = 1) /\ \E p \in Mem : ObsJoin(p)
+    \/ obs.st = "on" /\ \E j \in {j \in 1..Len(props) : props[j].epoch = obs.epoch /\ j \notin obs.cache} : ObsDeliverProposal(j)
+    \/ obs.st = "on" /\ \E n \in {n \in 1..Len(commits) : IsWinner(n) /\ commits[n].baseEpoch = obs.epoch} : ObsDeliverCommit(n)
+    \/ obs.st = "on" /\ \E n \in {n \in 1..Len(commits) : IsWinner(n) /\ commits[n].baseEpoch = obs.epoch} : ObsDeliverCommit(n)
+    \/ obs.st = "on" /\ Len(commits) > 0 /\ RandomElement(1..(4 + Z)) = 1 /\ \E n \in {RandomElement(1..Len(commits))} : ObsDeliverCommit(n)
+    \/ obs.st = "on" /\ Len(apps) > 0 /\ \E a \in {RandomElement(1..Len(apps))} : ObsDeliverApp(a, apps[a].lo)
+    \/ obs.st = "on" /\ RandomElement(1..(6 + Z)) = 1 /\ ObsSnapshotRestore
+
+SimMember ==
     IF Booting THEN Bootstrap
     ELSE \E r \in {RandomElement(1..(100 + Z))} :
             IF r <= WProgress /\ ProgressEnabled THEN Progress ELSE SimOther
+
+SimNext ==
+    IF "observer" \in Features /\ ~Booting /\ RandomElement(1..(100 + Z)) <= 25 /\ ENABLED SimObs
+    THEN SimObs
+    ELSE SimMember /\ UNCHANGED obs
 
 SimSpec == Init /\ [][Logged(SimNext)]_vars
 
